@@ -9,7 +9,8 @@ import itertools
 
 from ..core import AnchorError, call_name, decorators, norm, short, own_nodes, kwarg, FUNC_TYPES
 from ..cfg import cfg_of
-from ..lib import calls_in, stmts_in, gate, must_pass, node_has, params, none_accept, effective_body
+from ..lib import calls_in, stmts_in, gate, must_pass, node_has, params, none_accept, effective_body, path_summaries
+from ..summaries import check_summary
 
 NAMES = 'jedi.inference.names'
 CLS = 'jedi.api.classes'
@@ -69,31 +70,8 @@ def rule_a(repo, chk):
 def rule_b(repo, chk):
     chk.clause('C17.b', 'BaseName.line/column return the components of self._name.start_pos unchanged; definition ranges come from '
                         'tree_name.get_definition()\'s own start_pos/end_pos (function/class end excludes the trailing newline leaf)')
-    for attr, idx in (('line', 0), ('column', 1)):
-        f = repo.find(CLS, 'BaseName.%s' % attr)
-        rets = [r for r in stmts_in(f, ast.Return) if not (isinstance(r.value, ast.Constant) and r.value.value is None)]
-        ok = len(rets) == 1 and norm(rets[0].value) == 'start_pos[%d]' % idx
-        chk.ob('C17.b', ok, f, 'BaseName.%s is start_pos[%d], unmodified' % (attr, idx), str([norm(r.value) for r in rets]))
-        src = [s for s in stmts_in(f, ast.Assign) if norm(s.targets[0]) == 'start_pos']
-        chk.ob('C17.b', len(src) == 1 and norm(src[0].value) == 'self._name.start_pos', f, '... of the wrapped name')
-    s = repo.find(CLS, 'BaseName.get_definition_start_position')
-    rets = stmts_in(s, ast.Return)
-    vals = [norm(r.value) for r in rets]
-    ok = sorted(vals) == sorted(['None', 'self._name.start_pos', 'definition.start_pos'])
-    chk.ob('C17.b', ok, s, 'definition start is the defining node\'s start_pos (the name\'s own position when it is no definition)', str(vals))
-    d = [a for a in stmts_in(s, ast.Assign) if norm(a.targets[0]) == 'definition']
-    chk.ob('C17.b', len(d) == 1 and norm(d[0].value) == 'self._name.tree_name.get_definition()', s, 'the defining node is tree_name.get_definition()')
-    e = repo.find(CLS, 'BaseName.get_definition_end_position')
-    vals = [norm(r.value) for r in stmts_in(e, ast.Return)]
-    ok = sorted(vals) == sorted(['None', 'self._name.tree_name.end_pos', 'last_leaf.get_previous_leaf().end_pos', 'last_leaf.end_pos', 'definition.end_pos'])
-    chk.ob('C17.b', ok, e, 'definition end is the defining node\'s end_pos; for functions/classes the trailing newline is excluded; no other special cases', str(vals))
-    for r in stmts_in(e, ast.Return):
-        if norm(r.value) == 'last_leaf.get_previous_leaf().end_pos':
-            w = gate(e, r, lambda ex, pol: pol and norm(ex) == "last_leaf.type == 'newline'")
-            chk.ob('C17.b', w is None, r, 'the previous leaf is used only when the last leaf is a newline', w or '')
-        if norm(r.value) in ('last_leaf.end_pos', 'last_leaf.get_previous_leaf().end_pos'):
-            w = gate(e, r, lambda ex, pol: pol and norm(ex) == "self.type in ('function', 'class')")
-            chk.ob('C17.b', w is None, r, 'last-leaf handling only for functions and classes', w or '')
+    for q in ('BaseName.line', 'BaseName.column', 'BaseName.get_definition_start_position', 'BaseName.get_definition_end_position'):
+        check_summary(repo, chk, 'C17.b', CLS, q)
 
 
 def rule_c(repo, chk):
@@ -124,6 +102,10 @@ def _truth(expr, env):
         return not _truth(expr.operand, env)
     if isinstance(expr, ast.Name):
         return env[expr.id]
+    if isinstance(expr, ast.Constant):
+        return bool(expr.value)
+    if isinstance(expr, ast.Call) and isinstance(expr.func, ast.Attribute) and expr.func.attr == 'is_definition' and not expr.args:
+        return env['is_def']
     raise AnchorError('unexpected node in the def/ref predicate: %s' % norm(expr))
 
 
@@ -131,36 +113,50 @@ def rule_d(repo, chk):
     chk.clause('C17.d', 'get_names(definitions, references): the filter predicate is, as a boolean function, true for (T,T), is_def for (T,F) and '
                         'not is_def for (F,T); candidates are ALL value lists of get_used_names(); is_definition is the token\'s own '
                         'is_definition() without include_setitem')
-    f = repo.find('jedi.api.helpers', 'get_module_names.def_ref_filter')
-    rets = stmts_in(f, ast.Return)
-    ok = len(rets) == 1
-    chk.ob('C17.d', ok, f, 'one predicate expression')
-    if ok:
-        e = rets[0].value
-        good = True
-        rows = []
-        for d, r, i in itertools.product([True, False], repeat=3):
-            env = {'definitions': d, 'references': r, 'is_def': i}
-            got = bool(_truth(e, env))
-            want = (d and i) or (r and not i)
-            rows.append((d, r, i, got))
-            good = good and got == want
-        chk.ob('C17.d', good, rets[0], 'predicate == (definitions and is_def) or (references and not is_def) on all 8 rows of the truth table', norm(e))
-    isd = [s for s in stmts_in(f, ast.Assign) if norm(s.targets[0]) == 'is_def']
-    ok = len(isd) == 1 and norm(isd[0].value) == 'name.is_definition()'
-    chk.ob('C17.d', ok, f, 'is_def is the token\'s own is_definition() (item assignments `x[k] = v` do not bind x)', short(isd[0]) if isd else '')
+    g0 = repo.find('jedi.api.helpers', 'get_module_names')
+    flt = [c for c in calls_in(g0, 'filter') if len(c.args) == 2 and isinstance(c.args[0], ast.Name)]
+    chk.floor('C17.d', len(flt), 1, '(filter(<predicate>, names) in get_module_names)')
+    pred = None
+    for x in ast.walk(g0):
+        if isinstance(x, FUNC_TYPES) and flt and x.name == flt[0].args[0].id:
+            pred = x
+    if pred is None and flt:
+        r_ = repo.resolve(flt[0].args[0])
+        pred = repo.def_by_dotted(r_) if r_ else None
+    if pred is None:
+        raise AnchorError('the predicate handed to filter() in get_module_names was not found')
+    f = pred
+    summ = path_summaries(pred)
+    chk.ob('C17.d', summ is not None, pred, 'the def/ref predicate is a loop-free function (decidable by its path summary)')
+    if summ is not None:
+        good, rows, why = True, [], ''
+        try:
+            for d, r, i in itertools.product([True, False], repeat=3):
+                env = {'definitions': d, 'references': r, 'is_def': i}
+                got = None
+                for facts, res in summ:
+                    if all(bool(_truth(ast.parse(t, mode='eval').body, env)) == v for t, v in facts):
+                        got = bool(_truth(ast.parse(res, mode='eval').body, env)) if res != 'None' else False
+                        break
+                want = (d and i) or (r and not i)
+                rows.append((d, r, i, got))
+                good = good and got == want
+        except (AnchorError, SyntaxError) as e_:
+            good, why = False, str(e_)
+        chk.ob('C17.d', good, pred, 'predicate == (definitions and is_def) or (references and not is_def) on all 8 rows of the truth table '
+                                    '(is_def = the token\'s own is_definition())', why or str(rows), key='def-ref-predicate')
+    isd_calls = [c for c in ast.walk(pred) if isinstance(c, ast.Call) and isinstance(c.func, ast.Attribute) and c.func.attr == 'is_definition']
+    ok = bool(isd_calls) and all(not c.args and not c.keywords and isinstance(c.func.value, ast.Name) and c.func.value.id in params(pred) for c in isd_calls)
+    chk.ob('C17.d', ok, pred, 'is_def is the token\'s own is_definition() (item assignments `x[k] = v` do not bind x)')
     g = repo.find('jedi.api.helpers', 'get_module_names')
     ns = [s for s in stmts_in(g, ast.Assign) if norm(s.targets[0]) == 'names']
     ok = bool(ns) and norm(ns[0].value) == 'list(chain.from_iterable(module.get_used_names().values()))'
     chk.ob('C17.d', ok, g, 'the candidates are all value lists of module.get_used_names() (every identifier token once)', short(ns[0]) if ns else '')
     chk.ob('C17.d', not g.decorator_list, g, 'get_module_names is recomputed per call (no cache keyed on a tree that the diff parser mutates in place)')
     rets = stmts_in(g, ast.Return)
-    ok = len(rets) == 1 and norm(rets[0].value) == 'filter(def_ref_filter, names)'
-    chk.ob('C17.d', ok, g, 'the result is filter(def_ref_filter, names)')
-    n = repo.find(CLS, 'Name.is_definition')
-    vals = [norm(r.value) for r in stmts_in(n, ast.Return)]
-    ok = 'self._name.tree_name.is_definition()' in vals and all(v in ('self._name.tree_name.is_definition()', 'True', 'False') for v in vals)
-    chk.ob('C17.d', ok, n, 'Name.is_definition() is the token\'s is_definition() (names without token count as definitions)', str(vals))
+    ok = len(rets) == 1 and isinstance(rets[0].value, ast.Call) and call_name(rets[0].value) == 'filter' and norm(rets[0].value.args[1]) == 'names'
+    chk.ob('C17.d', ok, g, 'the result is filter(<predicate>, names)')
+    check_summary(repo, chk, 'C17.d', CLS, 'Name.is_definition')
     nm = repo.find('jedi.api', 'Script._names')
     srt = [c for c in calls_in(nm, 'sorted')]
     ok = len(srt) == 1 and 'start_pos' in norm(kwarg(srt[0], 'key'))
